@@ -595,12 +595,12 @@ func (p *c19) Shrink(scAny any) []any {
 
 func (p *c19) Info() PropInfo {
 	return PropInfo{
-		Rule: "enumeration: {DialWithContext, DialAndSend, a second DialWithContext on a connected Client whose first connection refuses, loses or garbles its QUIT; the caller's context cancelled by another task 0.15..2.5 ms into the call; the n-th SetDeadline on the connection failing} x TLS policy {mandatory, opportunistic, none} x auth type x failing step (greeting, EHLO, EHLO+HELO, STARTTLS missing/refused, TLS handshake failure kinds, post-TLS EHLO, AUTH missing/mechanism missing/bad password/each AUTH step, NOOP, MAIL, each RCPT, DATA, end-of-data, RSET, QUIT) x failure kind {421, 451, 550, 554, disconnect, garbage reply, reply-then-close}, each also combined with a second fault on the clean-up path (QUIT refused / dropped / garbled, RSET refused / dropped; thorough: all pairs, quick: every fifth), and connections made through the fallback port; a case is non-trivial when a failure is injected; distinct = distinct (op, policy, auth, step, rule, error class)",
+		Rule: "enumeration: {DialWithContext, DialAndSend, a second DialWithContext on a connected Client whose first connection refuses, loses or garbles its QUIT; the caller's context cancelled by another task 0.15..2.5 ms into the call; the n-th SetDeadline on the connection failing} x TLS policy {mandatory, opportunistic, none} x auth type x failing step (greeting, EHLO, EHLO+HELO, STARTTLS missing/refused, TLS handshake failure kinds, post-TLS EHLO, AUTH missing/mechanism missing/bad password/each AUTH step, NOOP, MAIL, each RCPT, DATA, end-of-data, RSET, QUIT) x failure kind {421, 451, 550, 554, disconnect, garbage reply, reply-then-close}, each also combined with a second fault on the clean-up path (QUIT refused / dropped / garbled, RSET refused / dropped; thorough: all pairs, quick: every fifth), and connections made through the fallback port; the same steps through go-mail's own dialers (no WithDialContextFunc): net.Dialer under the three STARTTLS policies, tls.Dialer for implicit TLS (handshake failure kinds, a peer that speaks plain SMTP), WithSSLPort(true) with a failing first dial, and QuickSend; a case is non-trivial when a failure is injected; distinct = distinct (op, policy, auth, step, rule, error class)",
 		Assumptions: []string{"the connection handed out by the dial function is the only transport resource; Close on it is what 'closed' means (for TLS-wrapped connections the underlying simulated connection's Close counts)",
 			"calls that never return are not judged here (C17)"},
 		Real:       []string{"github.com/wneessen/go-mail (Client, smtp.Client, all SASL mechanisms)", "net/textproto", "crypto/tls on both ends"},
-		Stubbed:    []string{"TCP (sim.Pipe)", "SMTP server (refsmtpd automaton, refsasl)", "clock (synctest bubble)", "crypto/rand (seeded)", "trust store (simulator CA via SSL_CERT_FILE)"},
-		NotCovered: []string{"implicit-TLS default dialer path (tls.Dialer over a real net.Dialer)", "port fallback dial", "unix sockets"},
+		Stubbed:    []string{"TCP (sim.Pipe)", "SMTP server (refsmtpd automaton, refsasl)", "clock (synctest bubble)", "crypto/rand (seeded)", "trust store (simulator CA via SSL_CERT_FILE)", "the socket under go-mail's default dialers (type names net.Dialer / tls.Dialer rewritten to simhook.NetDialer / simhook.TLSDialer in the scratch copy; TLSDialer.DialContext follows crypto/tls.(*Dialer).DialContext step by step, 25 lines)"},
+		NotCovered: []string{"unix sockets", "the operating system's dial errors (DNS, refused, unreachable) other than a failing first dial"},
 		Exhaustive: func(string) bool { return true },
 		QuickRuns:  0, ThoroughRuns: 0, QuickBudget: 90 * time.Second, ThoroughBudget: 20 * time.Minute,
 	}
